@@ -240,10 +240,15 @@ type item struct {
 	goKey string
 	hash  string
 	explicit bool
+<<<<<<< HEAD
 	extern string // Coq module that supplies this item (cfg directive `extern pkg.Var Module`); no text is emitted
+=======
+	extern string // Coq module (under Geo.) holding a hand-written definition of this name
+>>>>>>> c12
 }
 
 type gen struct {
+	externs map[string]string // goKey -> Coq module, from "extern <goKey> <Module>" lines
 	w       *world
 	items   map[string]*item
 	order   []string
@@ -1002,10 +1007,28 @@ func (c *fctx) call(x *ast.CallExpr) string {
 		args = append(args, recv)
 	}
 	if sig.Variadic() {
-		fail("variadic call")
-	}
-	for i, a := range x.Args {
-		args = append(args, c.exprAs(a, sig.Params().At(i).Type()))
+		// f(a, b, xs...) is not modelled; f(a, b, x1, x2) packs the trailing arguments
+		// into the slice parameter, which is a Coq list.
+		if x.Ellipsis.IsValid() {
+			fail("variadic call with ...")
+		}
+		nfix := sig.Params().Len() - 1
+		if len(x.Args) < nfix {
+			fail("variadic call with a tuple argument")
+		}
+		for i := 0; i < nfix; i++ {
+			args = append(args, c.exprAs(x.Args[i], sig.Params().At(i).Type()))
+		}
+		elemT := sig.Params().At(nfix).Type().(*types.Slice).Elem()
+		rest := []string{}
+		for _, a := range x.Args[nfix:] {
+			rest = append(rest, c.exprAs(a, elemT))
+		}
+		args = append(args, "["+strings.Join(rest, "; ")+"]")
+	} else {
+		for i, a := range x.Args {
+			args = append(args, c.exprAs(a, sig.Params().At(i).Type()))
+		}
 	}
 	if fn.Pkg() != nil && fn.Pkg().Path() == "math" {
 		name, ok := mathFuncs[fn.Name()]
@@ -1705,6 +1728,13 @@ func (g *gen) needFunc(fn *types.Func, explicit bool) string {
 	}
 	it := &item{kind: kFunc, name: name, deps: map[string]bool{}, goKey: funcKey(fn), explicit: explicit}
 	g.items[name] = it
+	if mod, ok := g.externs[it.goKey]; ok {
+		// hand-modelled in Model/: callers are translated against that definition
+		it.extern = mod
+		it.explicit = false
+		g.notes = append(g.notes, "EXTERN "+it.goKey+" -> "+mod+"."+name)
+		return name
+	}
 	decl := g.w.funcDecl[fn]
 	p := g.w.funcPkg[fn]
 	func() {
@@ -1777,6 +1807,8 @@ type cfgEntry struct {
 	pat  string
 }
 
+var cfgExterns = map[string]string{}
+
 func readCfg(path string) (units []string, entries []cfgEntry) {
 	var data []byte
 	if st, err := os.Stat(path); err == nil && st.IsDir() {
@@ -1812,10 +1844,19 @@ func readCfg(path string) (units []string, entries []cfgEntry) {
 			continue
 		}
 		if strings.HasPrefix(ln, "extern ") {
+<<<<<<< HEAD
 			// extern pkg.Var Coq.Module : package-level variable supplied by a hand-written module
 			if f := strings.Fields(ln); len(f) == 3 {
 				externs[f[1]] = f[2]
 			}
+=======
+			// extern <pkg.Func | pkg.Type.Method> <Coq module>: the function is hand-modelled there under its usual Coq name
+			f := strings.Fields(ln)
+			if len(f) != 3 {
+				fatal("bad extern line: " + ln)
+			}
+			cfgExterns[f[1]] = f[2]
+>>>>>>> c12
 			continue
 		}
 		entries = append(entries, cfgEntry{cur, ln})
@@ -1831,6 +1872,7 @@ func main() {
 	w := loadWorld()
 	g := &gen{w: w, items: map[string]*item{}, unitOf: map[string]string{}}
 	units, entries := readCfg(*cfgF)
+	g.externs = cfgExterns
 
 	// resolve entries to functions, in configuration order
 	type want struct {
@@ -2075,6 +2117,9 @@ func main() {
 	}{Notes: g.notes}
 	for _, n := range names {
 		it := g.items[n]
+		if it.extern != "" {
+			continue // listed in Notes as EXTERN
+		}
 		ri := repItem{it.goKey, it.name, it.unit, it.hash, it.err, it.explicit}
 		if good[n] {
 			rep.Translated = append(rep.Translated, ri)
